@@ -1995,8 +1995,9 @@ pub fn generate(seed: u64, g: &GenCfg) -> Trace {
         return generate_big(seed, g);
     }
     let mut rng = Prng::new(seed);
-    let depth = if g.deep && rng.chance(1, 12) {
-        *rng.pick(&[10usize, 20])
+    let depth = if rng.chance(1, 10) {
+        // middle depths in every tier (cheap for every backend); 16 and 20 only when `deep` (pmtree is slow there)
+        if g.deep { *rng.pick(&[7usize, 8, 9, 10, 13, 16, 20, 20]) } else { *rng.pick(&[7usize, 8, 9, 10, 13]) }
     } else {
         [1usize, 2, 2, 3, 3, 3, 4, 4, 4, 5, 5, 6][rng.usize_below(12)]
     };
